@@ -313,8 +313,22 @@ class Evaluator(object):
     def ev_Call(self, node, path):
         fn = dotted(node.func)
         rname = self.module.resolve(fn) if fn else None
-        args = [self.ev(a, path) for a in node.args if not isinstance(a, ast.Starred)]
-        kwargs = {k.arg: self.ev(k.value, path) for k in node.keywords if k.arg}
+        args = []
+        for a in node.args:
+            if isinstance(a, ast.Starred):
+                sv = self.ev(a.value, path)
+                args.append(form.apply("starred", [sv if isinstance(sv, Rat) else (form.apply("pylist", [tuple(sv)]) if isinstance(sv, list) and all(isinstance(x, Rat) for x in sv) else self._opaque(a.value, path))]))
+            else:
+                args.append(self.ev(a, path))
+        kwargs = {}
+        nstar = 0
+        for k in node.keywords:
+            if k.arg:
+                kwargs[k.arg] = self.ev(k.value, path)
+            else:
+                kv = self.ev(k.value, path)          # **mapping: part of what the callee receives
+                kwargs["**%d" % nstar] = kv if isinstance(kv, Rat) else self._opaque(k.value, path)
+                nstar += 1
         recv = None
         if isinstance(node.func, ast.Attribute) and isinstance(node.func.value, ast.Name) and node.func.value.id in path.env \
                 and node.func.value.id not in self.module.aliases:
